@@ -80,7 +80,51 @@ def c04(run):
                         "layout files: bundled Probhat.json and the synthetic layout derived from it"]
 
 
-PROPS = {"C04": c04, "C12": c12, "C13": c13, "C14": c14}
+SESSION_RULE = ("TLC (MC_Session over Riti.tla) checks C01/C02/C06 on the transcript for ALL in-contract histories to depth %d with "
+                "nondeterministic list data (%s distinct states), then emits every in-contract history of depth %d over the class alphabets "
+                "(fixed: 8 key values incl. a key without assignment; phonetic: 8 characters incl. the character-less keypad keys; backspace, "
+                "ctrl-backspace, commit first/last, finish, update-engine to a flipped option set or the other method) from 7 configurations; "
+                "every history is replayed in the real engine with symbolic selection bytes / commit indices bound to the real list length; "
+                "at every terminating event a brand-new context is forked and must answer identically from then on.  Non-trivial = "
+                "histories in which at least one fork was compared.")
+
+
+def session(run, sites, quick_depth=4, thorough_depth=5):
+    run.sites = sites
+    d_design = 6 if run.quick() else 7
+    d_emit = quick_depth if run.quick() else thorough_depth
+    # design level
+    tlc, s = run_tlc_replay(run, "MC_Session_design", "MC_Session.tla",
+                            dict(spec="Spec", constants={"Depth": d_design, "Emitting": "FALSE", "Family": '"mixed"', "MaxLen": 3},
+                                 invariants=["C01_NoCrash", "C02_WellFormed", "C06_FreshWhenIdle", "C06_ShownOngoing", "C06_EmptyBsIdle"]),
+                            run.pid, workers=8, threads=1)
+    run.add(tlc, None)
+    design_states = tlc["states"]
+    for fam in ("fixed", "phonetic", "mixed"):
+        tlc, s = run_tlc_replay(run, "MC_Session_" + fam, "MC_Session.tla",
+                                dict(spec="Spec", constants={"Depth": d_emit, "Emitting": "TRUE", "Family": '"%s"' % fam, "MaxLen": 3},
+                                     invariants=["Emit"]),
+                                run.pid, workers=4, threads=8)
+        run.add(tlc, s)
+    run.rule = SESSION_RULE % (d_design, design_states, d_emit)
+    run.assumptions += ["candidate lists are abstract in the model (length/preselection nondeterministic)",
+                        "replay contexts use an empty database directory (cheap brand-new contexts); data-dependent paths are covered by the recorded-trace checks",
+                        "the learned-selection store is held fixed: phonetic commits use the preselected index"]
+
+
+def c01(run):
+    session(run, {"panic"})
+
+
+def c02(run):
+    session(run, {"wf"})
+
+
+def c06(run):
+    session(run, {"flag", "fresh"})
+
+
+PROPS = {"C01": c01, "C02": c02, "C06": c06, "C04": c04, "C12": c12, "C13": c13, "C14": c14}
 
 
 def replay_file(run, path):
